@@ -49,11 +49,8 @@ Qed.
 
 Lemma safe_up v : safe (h_up v). Proof. intros x; split; auto. Qed.
 Lemma safe_handling v : safe (h_handling v). Proof. intros x; split; auto. Qed.
-Lemma safe_pools v : safe (h_pools v). Proof. intros x; split; auto. Qed.
 Lemma safe_comp f g : safe f -> safe g -> safe (fun x => f (g x)).
 Proof. intros Hf Hg x. destruct (Hf (g x)), (Hg x). split; [congruence | auto]. Qed.
-Lemma safe_pools_fun (p : hst -> nat -> nat) : safe (fun x => h_pools (p x) x).
-Proof. intros x; split; auto. Qed.
 Lemma safe_add : safe (fun x => h_up 2 (h_present 1 x)).
 Proof. intros x; split; simpl; auto. discriminate. Qed.
 Lemma safe_handling_up a b : safe (fun x => h_handling a (h_up b x)).
@@ -66,6 +63,9 @@ Lemma sc_set_out s q : same_core s (set_out s q). Proof. repeat split; auto. Qed
 Lemma sc_set_gfail s q : same_core s (set_gfail s q). Proof. repeat split; auto. Qed.
 Lemma sc_set_nextg s q : same_core s (set_nextg s q). Proof. repeat split; auto. Qed.
 Lemma sc_set_order s q : same_core s (set_order s q). Proof. repeat split; auto. Qed.
+Lemma sc_set_epools s q : same_core s (set_epools s q). Proof. repeat split; auto. Qed.
+Lemma sc_set_eign s q : same_core s (set_eign s q). Proof. repeat split; auto. Qed.
+Lemma sc_upd_pools s h f : same_core s (upd_pools s h f). Proof. repeat split; auto. Qed.
 
 Ltac sc := repeat first
   [ apply same_core_refl
@@ -76,15 +76,25 @@ Ltac sc := repeat first
   | eapply same_core_trans; [| apply sc_set_gfail]
   | eapply same_core_trans; [| apply sc_set_nextg]
   | eapply same_core_trans; [| apply sc_set_order]
-  | eapply same_core_trans; [| apply sc_updh; first [apply safe_up | apply safe_handling | apply safe_pools | apply safe_pools_fun
+  | eapply same_core_trans; [| apply sc_set_epools]
+  | eapply same_core_trans; [| apply sc_set_eign]
+  | eapply same_core_trans; [| apply sc_upd_pools]
+  | eapply same_core_trans; [| apply sc_updh; first [apply safe_up | apply safe_handling
                                                      | apply safe_add | apply safe_handling_up ] ] ].
 
 Lemma sc_remove_pools s h cb : same_core s (remove_pools s h cb).
 Proof. unfold remove_pools. sc. Qed.
 Lemma sc_add_pools s h a g : same_core s (add_pools s h a g).
-Proof. unfold add_pools. destruct (ign (hosts s h)); sc. Qed.
+Proof. unfold add_pools. destruct (ignd s h); sc. Qed.
+Lemma sc_ucp_one s sid : same_core s (ucp_one s sid).
+Proof. unfold ucp_one. sc. Qed.
+Lemma sc_ucp_fold l : forall s, same_core s (fold_left ucp_one l s).
+Proof.
+  induction l; simpl; intros s; [apply same_core_refl|].
+  eapply same_core_trans; [apply sc_ucp_one | apply IHl].
+Qed.
 Lemma sc_ucp_all s : same_core s (ucp_all s).
-Proof. unfold ucp_all. sc. Qed.
+Proof. unfold ucp_all. apply sc_ucp_fold. Qed.
 Lemma sc_finalize_add s h b : same_core s (finalize_add s h b).
 Proof.
   unfold finalize_add. eapply same_core_trans; [| apply sc_ucp_all]. eapply same_core_trans; [| apply sc_emit].
@@ -93,7 +103,7 @@ Qed.
 Lemma sc_on_add s h : same_core s (on_add s h).
 Proof.
   unfold on_add.
-  destruct (ign (hosts (emit s (NP 2 h)) h)).
+  destruct (ignd (emit s (NP 2 h)) h).
   - eapply same_core_trans; [| apply sc_finalize_add]. sc.
   - destruct (has_futures _ h).
     + eapply same_core_trans; [| apply sc_set_nextg]. eapply same_core_trans; [| apply sc_add_pools]. sc.
@@ -171,7 +181,7 @@ Qed.
 Lemma J_start s h a : J s -> J (start_reconnector s h a).
 Proof.
   intros HJ. unfold start_reconnector.
-  destruct (ign (hosts s h)); auto.
+  destruct (ignd s h); auto.
   destruct (negb (present (hosts s h) =? 1)) eqn:Ep; auto.
   apply negb_false_iff, Nat.eqb_eq in Ep.
   destruct HJ as (J1 & J2 & J3 & J4 & J5).
@@ -243,7 +253,7 @@ Qed.
 Lemma J_on_down_task s h a e : J s -> J (on_down_task s h a e).
 Proof.
   intros HJ. unfold on_down_task.
-  destruct (negb (ign (hosts s h)) && connected s h); auto.
+  destruct (negb (ignd s h) && connected s h); auto.
   match goal with |- J (if ?c then _ else _) => destruct c end.
   - eapply J_frame; [| exact HJ]. sc.
   - apply J_start. eapply J_frame; [| exact HJ].
@@ -479,16 +489,18 @@ Qed.
 
 Lemma J_step_ s e : J s -> J (step_ s e).
 Proof.
-  intros HJ. destruct e; simpl.
-  - destruct (known s h); auto. eapply J_frame; [| exact HJ]. sc.
+  intros HJ. destruct e as [h|h|h|h|h|k o|k o|k|j o|e0 b]; simpl.
+  - destruct (known s h); auto.
   - destruct (known s h); auto.
   - destruct (known s h); auto. apply J_on_up; auto.
-  - destruct (present (hosts s h) =? 0); auto. eapply J_frame; [apply sc_on_add|]. eapply J_frame; [| exact HJ]. sc.
+  - destruct ((present (hosts s h) =? 0) && ((h <? neps s) || (present (hosts s (h - neps s)) =? 2))); auto.
+    eapply J_frame; [apply sc_on_add|]. eapply J_frame; [| exact HJ]. sc.
   - destruct (present (hosts s h) =? 1); auto. apply J_on_remove; auto.
   - destruct (nth_error (timers s) k) eqn:Ek; auto. apply J_reconnect; auto.
   - destruct (nth_error (queue s) k) eqn:Ek; auto. apply J_run_task. auto.
   - destruct (nth_error (timers s) k) eqn:Ek; auto. apply J_probe_start; auto.
   - destruct (nth_error (probes s) j) eqn:Ek; auto. apply J_probe_finish_ev; auto.
+  - eapply J_frame; [| exact HJ]. sc.
 Qed.
 
 Lemma J_step s e : J s -> J (fst (step s e)).
@@ -556,4 +568,28 @@ Qed.
 
 (* a removed host never gets a reconnector again: _start_reconnector is a no-op for it *)
 Lemma removed_start_noop s h a : present (hosts s h) = 2 -> start_reconnector s h a = s.
-Proof. intros Hp. unfold start_reconnector. rewrite Hp. simpl. destruct (ign (hosts s h)); auto. Qed.
+Proof. intros Hp. unfold start_reconnector. rewrite Hp. simpl. destruct (ignd s h); auto. Qed.
+
+Lemma hosts_updh_same s h f : hosts (updh s h f) h = f (hosts s h).
+Proof. unfold updh; simpl. rewrite Nat.eqb_refl. reflexivity. Qed.
+
+(* whenever on_up goes ahead (not already handling, not already up) -- whatever the host's distance is at that moment --
+   the host's reconnector is detached and cancelled *)
+Lemma on_up_clears s h : handling (hosts s h) = false -> up (hosts s h) <> 1 ->
+  reg (hosts (on_up s h) h) = None /\ (forall r, reg (hosts s h) = Some r -> rcanc (recs (on_up s h) r) = true).
+Proof.
+  intros Hh Hu. unfold on_up. rewrite Hh. apply Nat.eqb_neq in Hu. rewrite Hu.
+  set (s1 := cancel_opt (updh s h (fun x => h_reg None (h_handling true x))) (reg (hosts s h))).
+  assert (A : reg (hosts s1 h) = None).
+  { unfold s1. destruct (reg (hosts s h)); unfold cancel_opt, updr, updh; simpl; rewrite Nat.eqb_refl; reflexivity. }
+  assert (B : forall r, reg (hosts s h) = Some r -> rcanc (recs s1 r) = true).
+  { intros r Hr. unfold s1. rewrite Hr. unfold cancel_opt, updr, updh. simpl. rewrite Nat.eqb_refl. reflexivity. }
+  match goal with |- context [if ?c then ?a else ?b] => set (a0 := a); set (c0 := c) end.
+  assert (Ea : hosts a0 = hosts s1 /\ recs a0 = recs s1) by (split; unfold a0, add_pools; destruct (ignd _ h); reflexivity).
+  destruct Ea as [E1 E2]. subst c0. destruct (has_futures a0 h); cbv beta iota.
+  - rewrite E1, E2. auto.
+  - split.
+    + change (reg (hosts (updh a0 h (fun x => h_handling false (h_up 1 x))) h) = None).
+      rewrite hosts_updh_same. change (reg (hosts a0 h) = None). rewrite E1. exact A.
+    + intros r Hr. change (rcanc (recs a0 r) = true). rewrite E2. auto.
+Qed.
